@@ -96,7 +96,13 @@ pub fn run() -> i32 {
                         let kv = Kdf::<Vec<u8>, Vec<u8>>::from_parts(key.to_vec(), c.to_vec());
                         let cvec: Result<Vec<u8>, _> = kv.derive_subkey(id);
                         let (pk, pc) = k.clone().into_parts();
-                        let okobj = a.map(|x| x.to_vec()).ok() == want && b.ok() == want && cvec.ok() == want && pk.as_slice() == &key[..] && pc.as_slice() == &c[..];
+                        // an object overwritten through Clone::clone_from derives what its source derives
+                        let mut over = Kdf::<StackByteArray<32>, StackByteArray<8>>::from_parts([0x77u8; 32].into(), [0x33u8; 8].into());
+                        over.clone_from(&k);
+                        let mut overv = Kdf::<Vec<u8>, Vec<u8>>::from_parts(vec![0x77u8; 32], vec![0x33u8; 8]);
+                        overv.clone_from(&kv);
+                        let cf_ok = over.derive_subkey_to_vec(id).ok() == want && overv.derive_subkey_to_vec(id).ok() == want && k.clone().derive_subkey_to_vec(id).ok() == want;
+                        let okobj = cf_ok && a.map(|x| x.to_vec()).ok() == want && b.ok() == want && cvec.ok() == want && pk.as_slice() == &key[..] && pc.as_slice() == &c[..];
                         // Vec containers longer than the fixed lengths: the object API and the classic
                         // function are handed the very same containers; the object API may refuse
                         // them, but it must not silently derive something else than the classic call
